@@ -35,7 +35,16 @@ type cclu struct {
 	names  []string
 	roots  []string
 	scored map[string]bool
+	lists  [][]string // every node's own server list (a permutation of names)
+	start  int        // op-line number of this scenario's newcluster line
 }
+
+// op-line numbers of the scenarios in which the REAL owner computation (cluster.RendezvousHash, through some node's own
+// server list) names another server than the minimum of the real scores written to the `score` lines - which is what the
+// composed model routes by.  Such a scenario diverges because of routing (C13), whatever the lines after show; written to
+// cluster/stats.json as "routing_diverged" and used by props/C17.py to hand those scenarios' differences to C13.
+var routingDiverged []int
+var routingDivergedSeen = map[int]bool{}
 
 func newComposeCluster(servers, maxShard int, lists [][]int, useed uint64) *cclu {
 	dir, err := os.MkdirTemp(tmpBase, "c17c-")
@@ -54,6 +63,7 @@ func newComposeCluster(servers, maxShard int, lists [][]int, useed uint64) *cclu
 		for _, j := range lists[i] {
 			list = append(list, c.names[j])
 		}
+		c.lists = append(c.lists, list)
 		n, err := cluster.NewNode(cluster.ClusterNodeConfig{
 			RootDir: root, Servers: list, RpcHost: "127.0.0.1", RpcPort: p, RpcTimeout: 5, RpcRetries: 1,
 			MaxShardSize: 1 << 30, MaxShardPointCount: int64(maxShard), MaxSearchLimit: 75,
@@ -104,8 +114,25 @@ func (r *composeRun) scores(key string) {
 		return
 	}
 	r.c.scored[key] = true
+	best, bestScore := "", uint64(0)
 	for _, s := range r.c.names {
-		r.emit("score", fmt.Sprintf("score %s %d", hex.EncodeToString([]byte(key+s)), xxhash.Sum64String(key+s)), "ok", false)
+		sc := xxhash.Sum64String(key + s)
+		r.emit("score", fmt.Sprintf("score %s %d", hex.EncodeToString([]byte(key+s)), sc), "ok", false)
+		if best == "" || sc < bestScore {
+			best, bestScore = s, sc
+		}
+	}
+	for i, list := range r.c.lists {
+		if got := cluster.RendezvousHash(key, list, 1); len(got) != 1 || got[0] != best {
+			if !routingDivergedSeen[r.c.start] {
+				routingDivergedSeen[r.c.start] = true
+				routingDiverged = append(routingDiverged, r.c.start)
+				r.out.Note("C13", "c17 cluster stream", "routing:"+hex.EncodeToString([]byte(key)),
+					fmt.Sprintf("cluster.RendezvousHash(%q, the server list of node %d, 1) = %v, the server with the smallest xxhash.Sum64String(key+server) is %s: the owner computation itself departs from rendezvous hashing (C13); the composed model routes by the scores, so this scenario diverges by routing", key, i, got, best),
+					strings.Join(r.lines, "\n"))
+			}
+			break
+		}
 	}
 }
 
@@ -240,6 +267,7 @@ func runComposeScenario(r *composeRun, rng *vh.Rng, idx int) {
 		nm = append(nm, hex.EncodeToString([]byte(n)))
 	}
 	r.emit("newcluster", fmt.Sprintf("newcluster maxc=%d names=%s lists=%s", maxShard, strings.Join(nm, ","), strings.Join(ls, "|")), "ok", false)
+	r.c.start = r.out.N
 	users := []string{"ab", "abc", "a", "abcd"}[:2+rng.Intn(3)]
 	colIds := []string{"cde", "de", "bcd"}
 	var cols []*ccol
@@ -482,5 +510,6 @@ func runCompose(dir string, seed uint64, n int) {
 		"rule":           "one case = one cluster API call through some entry node (create / insert / update / delete / get / drop) or a dump of every node; non-trivial = distinct op line on a collection with at least two shards (dump: at least two servers)",
 		"configurations": cfgs,
 		"harness_s":      time.Since(t0).Seconds(),
+		"routing_diverged": routingDiverged,
 	})
 }
